@@ -249,6 +249,13 @@ engine_a("C37",
     level_text="History invariant: CopyAddrs(preferred ranges) must equal the deduplicated union of learned, reported and resolved addresses of all sources minus blocked ones, ordered preferred ranges first, then IPv6, public IPv4, private IPv4, each by address then port; relay candidates must equal the sorted deduplicated union of reported relays. The combinatorial space of lists is only sampled through these histories (claimed only as a by-product of the history simulation). Evidence, not proof.",
 )
 
+engine_a("C44",
+    scenarios=["C44.dns"],
+    technique="deterministic whole-overlay simulation of a serve_dns lighthouse with peers joining through real (and failing) handshakes under faults; the real DNS handler is called with seeded queries at seeded points of the history and every answer is checked against the set of certificates whose handshake completed at that node",
+    rule="one run = lighthouse with serve_dns, 2-4 peers with mixed-case certificate names and IPv4/IPv6 overlay addresses, optional peer under an untrusted CA and optional expired peer reusing an honest name, transport faults, rehandshakes/closes/restarts, and 40-160 DNS queries (A, AAAA, TXT, MX, multi-question; names in random case, unknown names, address names) from loopback, the node's own overlay address, a peer's overlay address and a foreign address; distinct = distinct abstract trace hash; non-trivial = at least one A answer and one NXDOMAIN were produced",
+    level_text="Seeded search over join/query histories: every A/AAAA answer must carry an address of that family taken from a certificate with that name (case-insensitive) whose handshake completed at the lighthouse (or its own), names that never passed verification are never answered, NXDOMAIN is returned only when no queried name is known, certificate details (TXT) go only to loopback or own-overlay clients and must be the certificate of the peer holding the queried address. The responder's socket is stubbed (handler called directly). Evidence, not proof.",
+)
+
 NOT_APPLICABLE = {
     "C03": "pure encode/decode round trip over input bytes; no clock, schedule, fault or second party for a simulator to control",
     "C04": "pure function of (certificate to sign, signer); offline CLI; nothing to schedule or fault",
